@@ -24,9 +24,10 @@ EXTENDS Integers, Sequences, FiniteSets, TLC
 CONSTANTS Configs,      \* records [bpg |-> balls per game, maxp |-> max players]
           Acts,         \* enabled action families (partitions the exhaustive runs)
           MaxP, MaxOps, MaxAdv, MaxGames, MaxEB,
+          MaxBallOps, MaxReq,   \* per ball / per pause between turns (shape the generated schedules)
           Deviations    \* named code-as-is deviations (none needed so far)
-VARIABLES cfg, ph, np, cur, P, bound, vol, ending, evs, act, nops, nadv, ngames
-vars == <<cfg, ph, np, cur, P, bound, vol, ending, evs, act, nops, nadv, ngames>>
+VARIABLES cfg, ph, np, cur, P, bound, vol, ending, evs, act, nops, nadv, ngames, bops
+vars == <<cfg, ph, np, cur, P, bound, vol, ending, evs, act, nops, nadv, ngames, bops>>
 Players == 1..MaxP
 NoLB  == [x |-> FALSE, v |-> 0, en |-> FALSE, done |-> FALSE]
 NewLB == [x |-> TRUE, v |-> 0, en |-> TRUE, done |-> FALSE]
@@ -85,24 +86,24 @@ AchF(kind, st) ==
       [] kind = "disable" -> IF st \in {"enabled", "stopped"} THEN "disabled" ELSE st
 \* ---- steps ------------------------------------------------------------------------------------------------------
 Init == /\ cfg \in Configs /\ ph = "idle" /\ np = 0 /\ cur = 0 /\ P = [p \in Players |-> NoP] /\ bound = NoBound /\ vol = Vol0
-        /\ ending = FALSE /\ evs = {} /\ act = [op |-> "init"] /\ nops = 0 /\ nadv = 0 /\ ngames = 0
+        /\ ending = FALSE /\ evs = {} /\ act = [op |-> "init"] /\ nops = 0 /\ nadv = 0 /\ ngames = 0 /\ bops = 0
 Step(a, P2, b2, v2) == P' = P2 /\ bound' = b2 /\ vol' = v2 /\ evs' = ChangeEvs(P, P2) /\ act' = a
 Me == P[cur]
 SetMe(r) == [P EXCEPT ![cur] = r]
-Op(fam) == /\ fam \in Acts /\ ph = "ball" /\ nops < MaxOps /\ nops' = nops + 1
+Op(fam) == /\ fam \in Acts /\ ph = "ball" /\ nops < MaxOps /\ nops' = nops + 1 /\ bops < MaxBallOps /\ bops' = bops + 1
            /\ UNCHANGED <<cfg, ph, np, cur, ending, nadv, ngames>>
 \* write through a device of mode m into the player record it is attached to
 Via(m, f(_)) == [P EXCEPT ![bound[m]] = f(@)]
 
-NewGame == /\ ph = "idle" /\ ngames < MaxGames /\ ngames' = ngames + 1
+NewGame == /\ ph = "idle" /\ ngames < MaxGames /\ ngames' = ngames + 1 /\ bops' = 0
            /\ ph' = "between" /\ np' = 1 /\ cur' = 1 /\ ending' = FALSE
            /\ P' = [p \in Players |-> IF p = 1 THEN InitP ELSE NoP] /\ bound' = NoBound /\ vol' = Vol0 /\ evs' = {}
            /\ act' = [op |-> "newgame"] /\ UNCHANGED <<cfg, nops, nadv>>
 \* a start request for a game mode while no player's turn is running is refused: nothing changes
-ModeReq(m) == /\ "modereq" \in Acts /\ ph \in {"idle", "between"} /\ nops < MaxOps /\ nops' = nops + 1
+ModeReq(m) == /\ "modereq" \in Acts /\ ph \in {"idle", "between"} /\ nops < MaxOps /\ nops' = nops + 1 /\ bops < MaxReq /\ bops' = bops + 1
               /\ Step([op |-> "modereq", m |-> m], P, bound, vol)
               /\ UNCHANGED <<cfg, ph, np, cur, ending, nadv, ngames>>
-TurnStart == /\ ph = "between" /\ ph' = "ball"
+TurnStart == /\ ph = "between" /\ ph' = "ball" /\ bops' = 0
              /\ Step([op |-> "turnstart"], SetMe(StartBall([Me EXCEPT !.ball = @ + 1])),
                      [gm1 |-> cur, gm2 |-> IF Me.rs THEN cur ELSE 0], IF Me.rs THEN VolFresh ELSE Vol0)
              /\ UNCHANGED <<cfg, np, cur, ending, nops, nadv, ngames>>
@@ -111,7 +112,7 @@ AddPlayer == /\ "addplayer" \in Acts /\ ph = "ball" /\ nops < MaxOps /\ nops' = 
                 /\ np' = IF ok THEN np + 1 ELSE np
                 /\ P' = IF ok THEN [P EXCEPT ![np + 1] = InitP] ELSE P
              /\ evs' = {} /\ act' = [op |-> "addplayer"]
-             /\ UNCHANGED <<cfg, ph, cur, bound, vol, ending, nadv, ngames>>
+             /\ UNCHANGED <<cfg, ph, cur, bound, vol, ending, nadv, ngames, bops>>
 Score == Op("score") /\ Step([op |-> "score"], SetMe([Me EXCEPT !.score = @ + 100]), bound, vol)
 SetVar(kind) == Op("var") /\ Step([op |-> "var", kind |-> kind],
                                  SetMe([Me EXCEPT !.bonus = IF kind = "set" THEN 5 ELSE @ + 1]), bound, vol)
@@ -156,7 +157,7 @@ Timer(kind) == /\ Op("timer")
                               [] kind = "pause" -> [vol EXCEPT !.trun = FALSE, !.tpause = 2]
                   IN Step([op |-> "timer", kind |-> kind], P, bound, IF bound.gm2 = 0 THEN vol ELSE v2)
 \* one second passes: a running timer ticks (into the player its mode belongs to), a timed pause runs out
-Adv == /\ "timer" \in Acts /\ ph = "ball" /\ nadv < MaxAdv /\ nadv' = nadv + 1
+Adv == /\ "timer" \in Acts /\ ph = "ball" /\ nadv < MaxAdv /\ nadv' = nadv + 1 /\ bops < MaxBallOps /\ bops' = bops + 1
        /\ LET T(r) == [r EXCEPT !.tick = @ + 1]
               v2 == IF vol.tpause > 0 THEN [vol EXCEPT !.tpause = @ - 1, !.trun = (vol.tpause = 1)] ELSE vol
           IN Step([op |-> "adv"], IF vol.trun /\ bound.gm2 # 0 THEN Via("gm2", T) ELSE P, bound, v2)
@@ -174,8 +175,8 @@ EndOfBall(a, endNow) ==
          /\ ph' = "idle" /\ np' = 0 /\ cur' = 0 /\ ending' = FALSE
     ELSE /\ Step(a, SetMe(me), NoBound, Vol0)
          /\ ph' = "between" /\ cur' = (IF cur < np THEN cur + 1 ELSE 1) /\ ending' = endNow /\ UNCHANGED np
-BallEnd == ph = "ball" /\ EndOfBall([op |-> "ballend"], ending) /\ UNCHANGED <<cfg, nops, nadv, ngames>>
-EndGame == /\ "endgame" \in Acts /\ ph = "ball" /\ EndOfBall([op |-> "endgame"], TRUE)
+BallEnd == ph = "ball" /\ EndOfBall([op |-> "ballend"], ending) /\ bops' = 0 /\ UNCHANGED <<cfg, nops, nadv, ngames>>
+EndGame == /\ "endgame" \in Acts /\ ph = "ball" /\ bops < MaxBallOps /\ bops' = 0 /\ EndOfBall([op |-> "endgame"], TRUE)
            /\ UNCHANGED <<cfg, nops, nadv, ngames>>
 Next == \/ NewGame \/ TurnStart \/ AddPlayer \/ Score \/ AwardEB \/ Rotate \/ ModeStart \/ ModeStop \/ Adv \/ BallEnd \/ EndGame
         \/ \E m \in {"gm1", "gm2"} : ModeReq(m)
